@@ -137,6 +137,19 @@ class Scenario:
         st = mc.moves[name]
         from project import composite_kind
 
+        if name == "del2" and rs.rand() < 0.7:
+            # the user pre-selects the elements of the two-deletions trial: two different particles in either index order
+            # and, for the displacement that follows, a third one -- preferably one that sits between them
+            els = list(st.move.moves)
+            labs = [int(x) for x in els[0].unique_labels]
+            if len(labs) >= 2:
+                a_, b_ = (int(x) for x in rs.choice(labs, size=2, replace=False))
+                els[0].to_delete_label, els[1].to_delete_label = a_, b_
+                if len(els) > 2 and len(labs) >= 3:
+                    rest = [x for x in labs if x not in (a_, b_)]
+                    first = {x: int(np.where(els[2].labels == x)[0][0]) for x in labs}
+                    between = [x for x in rest if min(first[a_], first[b_]) < first[x] < max(first[a_], first[b_])]
+                    els[2].to_displace_labels = int(rs.choice(between if between and rs.rand() < 0.8 else rest))
         if composite_kind(st.move) == "single" and rs.rand() < 0.25:
             m = st.move
             if hasattr(m, "unique_labels") and len(m.unique_labels):
@@ -397,9 +410,9 @@ def build(seed: int, family: str | None = None, allow_restart: bool = True) -> S
             from quansino.moves.composite import CompositeMove
 
             ea = RecExch(lab.copy(), Translation() if not molecular else TranslationRotation(), bias_towards_insert=0.0)
-            eb = RecExch(lab.copy(), Translation() if not molecular else TranslationRotation(), bias_towards_insert=float(rs.choice([0.0, 0.0, 0.5])))
+            eb = RecExch(lab.copy(), Translation() if not molecular else TranslationRotation(), bias_towards_insert=float(rs.choice([0.0, 0.0, 0.5])) if not mix else 0.0)
             parts = [ea, eb]
-            if rs.rand() < 0.5:
+            if rs.rand() < (0.8 if mix else 0.5):
                 parts.append(RecDisp(lab.copy(), disp_op(rs, molecular)))
             mc.add_move(CompositeMove(parts), criteria=GrandCanonicalCriteria(), name="del2", probability=0.7)
     elif fam == "gcdrain":
